@@ -2493,7 +2493,7 @@ class Sequence(Construct):
         """
         for sc in self.subcons:
             block += f"""
-                    {f'obj = next(objiter)'}
+                    {'obj = next(objiter, None)' if sc.flagbuildnone else 'obj = next(objiter)'}
                     {f'this[{repr(sc.name)}] = obj' if sc.name else ''}
                     {f'x = '}{sc._compilebuild(code)}
                     {f'retlist.append(x)'}
